@@ -2,12 +2,18 @@ import NeumannModel.Common.Proto
 import NeumannModel.RelTx.Model
 import NeumannModel.RelTx.RaceModel
 import NeumannModel.RelTx.DdlModel
+import NeumannModel.RelTx.CapModel
 /-
   Line-protocol driver for the relational transaction model (C09).  Stateful.
   Row ids on the wire are ENGINE ids (slab id + 1); transaction ids are the model's own
   (the harness keeps the model-id ↔ real-id table).
 
-    init <lockTimeoutMs> <txTimeoutMs>          ok
+    init <lockTimeoutMs> <txTimeoutMs>          ok                                  (also: no b-tree entry cap)
+    cap <n> | cap -                             ok      `max_btree_entries = n` from here on (`CapModel.lean`): tx_insert /
+                                                        tx_update / tx_delete / insert / update / delete / rollback /
+                                                        batch_insert / create_btree run step by step and may answer
+                                                        `err too_large` (the state keeps what the steps before did)
+    nkeys                                       n <k>   (`btree_entry_count`: keys of all in-memory b-trees)
     create_table <ncols> [<nullable cols c,c|->] ok <t>                          (under the next unused name)
     drop_table <t>                              ok | err table_not_found | err lock_conflict
     recreate_table <t> <ncols>                  ok | err table_exists               (create_table under the name <t>)
@@ -110,6 +116,8 @@ def sortNats (xs : List Nat) : List Nat := xs.mergeSort (fun a b => a ≤ b)
 structure DState where
   s : State
   scans : Nat → List (Nat × List Val)
+  /-- `max_btree_entries` when the engine was configured with a small one -/
+  cap : Option Nat := none
 
 def relStep (s : State) (line : String) : State × String :=
   let bad := (s, "bad-op")
@@ -189,6 +197,39 @@ def relStep (s : State) (line : String) : State × String :=
   | ["nlocks"] => (s, s!"n {((allKeys s).filter fun k => (s.locks k.1 k.2).isSome).length}")
   | _ => bad
 
+def showResC (bump : Nat) : ResC → String
+  | .res r => showRes bump r
+  | .tooLarge => "err too_large"
+
+/-- the statements that run step by step under a b-tree entry cap (`CapModel.lean`); `none`: not one of them -/
+def capStep (cap : Nat) (s : State) (line : String) : Option (State × String) :=
+  let fin := fun (bump : Nat) (r : State × ResC) => some (r.1, showResC bump r.2)
+  match words line with
+  | ["rollback", tx] => match tx.toNat? with
+    | some tx => fin 0 (stepC cap s (.rollback tx)) | none => none
+  | ["tx_insert", tx, t, vs] => match tx.toNat?, t.toNat?, parseVals vs with
+    | some tx, some t, some vs => fin 1 (stepC cap s (.txInsert tx t vs)) | _, _, _ => none
+  | ["tx_update", tx, t, c, u] => match tx.toNat?, t.toNat?, parseCond c, parseUpd u with
+    | some tx, some t, some c, some u => fin 0 (stepC cap s (.txUpdate tx t c u)) | _, _, _, _ => none
+  | ["tx_delete", tx, t, c] => match tx.toNat?, t.toNat?, parseCond c with
+    | some tx, some t, some c => fin 0 (stepC cap s (.txDelete tx t c)) | _, _, _ => none
+  | ["insert", t, vs] => match t.toNat?, parseVals vs with
+    | some t, some vs => fin 1 (stepC cap s (.insert t vs)) | _, _ => none
+  | ["update", t, c, u] => match t.toNat?, parseCond c, parseUpd u with
+    | some t, some c, some u => fin 0 (stepC cap s (.update t c u)) | _, _, _ => none
+  | ["delete", t, c] => match t.toNat?, parseCond c with
+    | some t, some c => fin 0 (stepC cap s (.delete t c)) | _, _ => none
+  | ["create_btree", t, c] => match t.toNat?, c.toNat? with
+    | some t, some c => fin 0 (stepC cap s (.createBtree t c)) | _, _ => none
+  | ["batch_insert", t, rs] => match t.toNat?, (if rs = "-" then some [] else (rs.splitOn ";").mapM parseVals) with
+    | some t, some rows =>
+      let first := match s.tables t with | some T => T.rows.length + 1 | none => 0
+      (match batchInsertC cap s t rows with
+        | (s', .res (.okN n)) => some (s', s!"ok {n} {if n = 0 then 0 else first}")
+        | (s', r) => some (s', showResC 0 r))
+    | _, _ => none
+  | _ => none
+
 /-- the split statements (two halves with other statements in between; `RaceModel.lean`):
       scan_update <tx> <t> <cond> <upd>     scan <id:v.v;...> | err <class>     first half of tx_update
       apply_update <tx> <t> <cond> <upd>    ok <n> | err <class>                second half, AS THE CODE IS
@@ -212,6 +253,13 @@ def raceStep (d : DState) (line : String) : DState × String :=
           else ({ d with scans := fun k => if k = tx then txScan T c else d.scans k }, "scan " ++ showRows (txScan T c))
         | none => ({ d with scans := fun k => if k = tx then txScan T c else d.scans k }, "scan " ++ showRows (txScan T c))
   match words line with
+  | ["cap", n] =>
+    if n = "-" then ({ d with cap := none }, "ok")
+    else match n.toNat? with
+      | some n => ({ d with cap := some n }, "ok")
+      | none => bad
+  | ["nkeys"] => (d, s!"n {btCount d.s}")
+  | ["init", _, _] => let r := relStep d.s line; ({ d with s := r.1, cap := none }, r.2)
   | ["scan_update", tx, t, c, u] => match tx.toNat?, t.toNat?, parseCond c, parseUpd u with
     | some tx, some t, some c, some u => firstHalf tx t c (some u) | _, _, _, _ => bad
   | ["scan_delete", tx, t, c] => match tx.toNat?, t.toNat?, parseCond c with
@@ -239,6 +287,9 @@ def raceStep (d : DState) (line : String) : DState × String :=
         | (s', none) => ({ d with s := s' }, "err lock_conflict")
         | (s', some n) => ({ d with s := s' }, s!"ok {n}"))
     | _, _ => bad
-  | _ => let r := relStep d.s line; ({ d with s := r.1 }, r.2)
+  | _ =>
+    match d.cap.bind (fun cap => capStep cap d.s line) with
+    | some r => ({ d with s := r.1 }, r.2)
+    | none => let r := relStep d.s line; ({ d with s := r.1 }, r.2)
 
 def main : IO Unit := run raceStep { s := init 30000 60000, scans := fun _ => [] }
